@@ -589,3 +589,65 @@ fn run_fsm_with(label: &str, ops: Vec<Op>, depth: usize, budget_s: f64, report: 
         report.machinery(format!("cache FSM ({label}) exploration hit its time cap before depth 3"));
     }
 }
+
+/// Sampling supplement (NOT part of the exhaustive claim, reported separately): the cache
+/// takes its bucket locks itself and has no scheduling points inside, so a window between
+/// two lock acquisitions of one call is invisible to the controlled scheduler. Four
+/// free-running threads insert / remove / get keys of their own that all share one bucket;
+/// a lookup right after the thread's own remove must miss, and at the end the cache must
+/// hold nothing.
+pub fn stress_supplement(report: &mut Report, seconds: f64) {
+    crate::util::set_home_cpu(None);
+    // twelve keys in one bucket
+    let mut keys: Vec<Vec<u8>> = Vec::new();
+    let mut i = 0u32;
+    let target = feoxdb::utils::hash::murmur3_32(b"k0", 0) as usize % BUCKETS;
+    while keys.len() < 12 {
+        let k = format!("s{i}").into_bytes();
+        if feoxdb::utils::hash::murmur3_32(&k, 0) as usize % BUCKETS == target {
+            keys.push(k);
+        }
+        i += 1;
+    }
+    let stats = Arc::new(Statistics::new());
+    let cache = ClockCache::new(stats.clone());
+    let dl = Deadline::new(seconds);
+    let bad: Mutex<Option<String>> = Mutex::new(None);
+    let rounds = AtomicU64::new(0);
+    std::thread::scope(|sc| {
+        for t in 0..4usize {
+            let (cache, keys, bad, dl, rounds) = (&cache, &keys, &bad, &dl, &rounds);
+            sc.spawn(move || {
+                let mine: Vec<&Vec<u8>> = keys.iter().skip(t * 3).take(3).collect();
+                let mut n = 0u64;
+                while !dl.expired() && bad.lock().unwrap().is_none() {
+                    for k in &mine {
+                        cache.insert((*k).clone(), Bytes::from_static(b"cached value"));
+                    }
+                    for k in &mine {
+                        cache.remove(k);
+                        if let Some(v) = cache.get(k) {
+                            *bad.lock().unwrap() = Some(format!(
+                                "C16: get({}) returned {:?} right after this thread's own remove of that key (no other thread touches it); found by the free-running sampling supplement",
+                                crate::util::show(k),
+                                crate::util::show(&v)
+                            ));
+                            return;
+                        }
+                    }
+                    n += 1;
+                }
+                rounds.fetch_add(n, Ordering::Relaxed);
+            });
+        }
+    });
+    let left = stats.cache_memory.load(Ordering::Relaxed);
+    let mut msg = bad.into_inner().unwrap();
+    if msg.is_none() && left != 0 {
+        msg = Some(format!("C16: every entry was removed by the thread that inserted it, but the cache still reports {left} bytes; found by the free-running sampling supplement"));
+    }
+    if let Some(m) = msg {
+        report.violation("cache|stress-supplement|hit after remove".to_string(), m, json!({"engine":"c16-stress"}));
+    }
+    report.set("sampling_supplement", json!({"rounds": rounds.load(Ordering::Relaxed), "threads": 4, "keys_in_one_bucket": 12, "note": "free-running threads, not exhaustive, not counted in states/transitions"}));
+}
